@@ -375,6 +375,19 @@ def ser_comp_specs(ex, st, n, kind, what):
     return None
 
 
+# helpers whose contract exists only while the helper does (inlining a helper into its caller is a harmless edit: the caller's own
+# contract then covers the inlined code)
+OPTIONAL_HELPERS = {f"{SER_PY}::_get_field_types", f"{CLI_PY}::_build_parser"}
+
+
+def _exists(target):
+    try:
+        rel, qual = target.split("::")
+        return loader.module(rel).functions.get(qual) is not None
+    except Exception:  # noqa
+        return True
+
+
 def contracts(reg):
     install_models(reg)
     out = []
@@ -425,15 +438,78 @@ def contracts(reg):
     out.append(c)
     out.append(FnContract(
         target=f"{SER_PY}::serialize_extraction",
-        params=[("value", p_pv()), ("include_binary", p_bool())],
+        params=[("value", p_pv()), ("include_binary", p_bool_sig(SER_PY, "serialize_extraction", 1))],
         requires=lambda c: sp.SEROK(pvt(c, "value")),
         returns=lambda c: PV(sp.SX(pvt(c, "value"), c.args["include_binary"].t)),
         ensures=[("always-a-json-object", lambda c: V.is_Dict(c.ex.to_pv(c.st, c.result)) if c.ex.to_pv(c.st, c.result) is not None else F)],
         note="SER(value) if that is an object, else {'value': SER(value)}"))
     out.extend(decoder_contracts())
+    out.extend(method_contracts())
+    try:
+        rf.install_pathlib(reg)
+        pf = f"{DT_PY}::FileMetadataInterface.populate_from_path"
+        if _exists(pf):
+            out.append(rf.populate_contract(pf, Maker, FnContract, Raises))
+    except Exception:  # noqa  (the pack's contracts() never lets an exception escape)
+        pass
     out.extend(cli_contracts())
     out.extend(store_site_contracts(reg))
+    out = [c_ for c_ in out if not (c_.target in OPTIONAL_HELPERS and not _exists(c_.target))]
     return bind_roles(out)
+
+
+def p_bool_sig(rel, qual, pos):
+    """A Boolean parameter whose call-site default is the one the REAL signature declares (read off the AST on every run: a changed
+    default changes what callers that omit the argument get).  No literal Boolean default -> no default (callers must pass it)."""
+    mk = p_bool()
+    try:
+        fn = loader.module(rel).functions.get(qual)
+        a = fn.args
+        params = a.posonlyargs + a.args
+        defaults = [None] * (len(params) - len(a.defaults)) + list(a.defaults)
+        allp = list(zip(params, defaults)) + list(zip(a.kwonlyargs, a.kw_defaults))
+        d = allp[pos][1]
+        if isinstance(d, ast.Constant) and isinstance(d.value, bool):
+            val = d.value
+            return Maker(mk.fn, desc=f"bool (default {val} from the signature)", default=lambda ex, st: VBool(val))
+    except Exception:  # noqa
+        pass
+    return mk
+
+
+def method_contracts():
+    """Round 7: the public methods themselves under contract (before: a syntactic `glue` pattern).  Every concrete `to_json` of
+    data_types.py returns SX(self, True) -- the full encoding, binary payloads included -- and `ExtractionInterface.from_json`
+    is DESERDC of its argument; both verified on their real bodies through the contracts of serialize_extraction /
+    deserialize_extraction (argument defaults are those of the real signatures)."""
+    from pyvc.verify import p_unk
+    out = []
+    try:
+        m = loader.module(DT_PY)
+    except (OSError, SyntaxError):
+        return out
+    for q, fn in m.functions.items():
+        if "<locals>" in q or "." not in q:
+            continue
+        body = [b for b in fn.body if not (isinstance(b, ast.Expr) and isinstance(b.value, ast.Constant))]
+        nparams = len(fn.args.posonlyargs + fn.args.args)
+        if q.endswith(".to_json") and body and nparams == 1 and not fn.args.kwonlyargs:
+            out.append(FnContract(
+                target=f"{DT_PY}::{q}", params=[("self", p_pv(only=("DC",)))],
+                requires=lambda c: sp.SEROK(pvt(c, "self")),
+                returns=lambda c: PV(sp.SX(pvt(c, "self"), T)),
+                note="to_json() == SX(self, include_binary=True): the complete encoding of the instance"))
+        if q.endswith(".from_json") and body and nparams == 2:
+            out.append(FnContract(
+                target=f"{DT_PY}::{q}", params=[("cls", p_unk()), ("data", p_pv())],
+                requires=lambda c: sp.JOK(pvt(c, "data")),
+                returns=lambda c: PV(sp.DESERDC(V.ents(pvt(c, "data")), sp.NOCLS)),
+                raises=[Raises("ValueError", when=lambda c: z3.Or(z3.Not(V.is_Dict(pvt(c, "data"))), z3.Not(sp.HASKEY(V.ents(pvt(c, "data")), sv("_type")))),
+                               label="not an object with a _type marker"),
+                        Raises("Exception", sub=True, when=lambda c: z3.And(V.is_Dict(pvt(c, "data")), sp.HASKEY(V.ents(pvt(c, "data")), sv("_type"))),
+                               label="malformed encoding")],
+                note="from_json(data) == DESERDC(data): the class named by _type, every declared field decoded by its hint"))
+    return out
 
 
 # ------------------------------------------------------------- the decoder --
@@ -1058,9 +1134,15 @@ def returns_serialize_of_self(body):
 
 
 def glue(repo, tier):
-    """The public methods are thin wrappers of the functions under contract (syntactic; unrecognised shape -> UNDECIDED)."""
+    """The public methods are thin wrappers of the functions under contract.  Round 7: every concrete to_json / from_json has a VERIFIED
+    contract of its own (method_contracts); what remains here is the coverage guard: a to_json / from_json method that is not under
+    such a contract must at least match the syntactic wrapper pattern, else UNDECIDED."""
     obls = []
     m = loader.module(DT_PY, repo)
+    try:
+        verified = {c.target.split("::")[1] for c in method_contracts()}
+    except Exception:  # noqa
+        verified = set()
     bad, n = [], 0
     for q, fn in m.functions.items():
         if q.endswith(".to_json") and "<locals>" not in q:
@@ -1068,13 +1150,16 @@ def glue(repo, tier):
             if not body and q.split(".")[0] in ("ExtractionInterface", "UnitInterface"):
                 continue      # abstract declaration
             n += 1
-            if not returns_serialize_of_self(body):
+            if q not in verified and not returns_serialize_of_self(body):
                 bad.append(f"{q}: {ast.unparse(body[-1])[:60] if body else 'empty'}")
-    obls.append(ground_obligation("C05/data_types.py::to_json/glue#every-to_json-is-serialize_extraction-of-self", n >= 30 and not bad, "; ".join(bad) or f"{n} to_json methods",
+    obls.append(ground_obligation("C05/data_types.py::to_json/glue#every-to_json-is-serialize_extraction-of-self", n >= 30 and not bad,
+                                  "; ".join(bad) or f"{n} to_json methods, {len([q for q in verified if q.endswith('.to_json')])} under a verified contract",
                                   DT_PY, kind="glue", backend="ground", definite=False))
     fj = m.functions.get("ExtractionInterface.from_json")
-    ok = fj is not None and [ast.unparse(b) for b in fj.body if not (isinstance(b, ast.Expr) and isinstance(b.value, ast.Constant))] == ["return deserialize_extraction(data)"]
-    obls.append(ground_obligation("C05/data_types.py::ExtractionInterface.from_json/glue#from_json-is-deserialize_extraction", ok, "", DT_PY, kind="glue", backend="ground", definite=False))
+    ok = fj is not None and ("ExtractionInterface.from_json" in verified or
+                             [ast.unparse(b) for b in fj.body if not (isinstance(b, ast.Expr) and isinstance(b.value, ast.Constant))] == ["return deserialize_extraction(data)"])
+    obls.append(ground_obligation("C05/data_types.py::ExtractionInterface.from_json/glue#from_json-is-deserialize_extraction", ok,
+                                  "under a verified contract" if "ExtractionInterface.from_json" in verified else "", DT_PY, kind="glue", backend="ground", definite=False))
     imp_ok = m.imports.get("serialize_extraction", "").endswith("serialization.serialize_extraction") and m.imports.get("deserialize_extraction", "").endswith("serialization.deserialize_extraction")
     obls.append(ground_obligation("C05/data_types.py::imports/glue#names-bound-to-serialization-module", imp_ok, str({k: m.imports.get(k) for k in ("serialize_extraction", "deserialize_extraction")}),
                                   DT_PY, kind="glue", backend="ground", definite=False))
